@@ -66,7 +66,9 @@ def _cte_body(sql, name):
 import cyshape
 
 SHAPES = {
-    "frame-cte-referenced-in-own-definition:bound-node-traversal": [("traversal-in-part-followed-by-with", {"rel-pattern-in-part-followed-by-with"})],
+    "frame-cte-referenced-in-own-definition:bound-node-traversal": [
+        ("undirected-step-between-carried-nodes-in-part-followed-by-with", {"undirected-step-in-pattern-that-uses-earlier-binding", "rel-pattern-in-part-followed-by-with"}),
+        ("traversal-in-part-followed-by-with", {"rel-pattern-in-part-followed-by-with"})],
     "frame-cte-referenced-in-own-definition:optional-match-left-join": [("optional-match-after-earlier-clause", {"optional-match-after-earlier-clause", "with"})],
     "frame-cte-referenced-in-own-definition:unwind-source": [("unwind-first-in-part-followed-by-with", {"unwind-first-in-part-followed-by-with"})],
     "frame-cte-referenced-in-own-definition:bound-node-expansion-seed": [("expansion-from-carried-node", {"varlen-uses-earlier-binding", "rel-pattern-in-part-followed-by-with"})],
@@ -75,8 +77,11 @@ SHAPES = {
     "frame-cte-undefined:never-defined": [("self-loop-pattern-after-leading-unwind", {"leading-unwind", "same-node-var-twice-after-earlier-clause"})],
     "frame-column-missing:sN.iN": [("unwind-then-optional-match", {"unwind", "optional-match-after-earlier-clause", "with"})],
     "unsatisfied-future:pattern-predicate-placeholder": [("pattern-predicate-in-with-where", {"pattern-predicate-in-with-where"})],
-    "binding-referenced-without-frame:edge": [("expansion-next-to-fixed-pattern", {"varlen", "rel-pattern"})],
+    "binding-referenced-without-frame:edge": [
+        ("labels-predicate-in-part-followed-by-with", {"labels-fn-in-where", "rel-pattern-in-part-followed-by-with"}),
+        ("expansion-next-to-fixed-pattern", {"varlen", "rel-pattern"})],
     "frame-cte-missing-from-from-clause:referenced-outside-definition": [
+        ("pattern-predicate-in-optional-match-with-comma-patterns", {"pattern-predicate-in-optional-match-with-comma-patterns"}),
         ("expansion-after-earlier-clause", {"varlen-after-earlier-clause"}),
         ("pattern-predicate", {"pattern-predicate"})],
     "frame-cte-referenced-in-own-definition:select-list-only": [
@@ -160,7 +165,7 @@ def classify(verdict, sql, op=""):
         # predicate's snapshot scope replaces) — it is deliberately not registered, so any non-ok outcome on it is a VIOLATION
         # (single-MATCH queries without WITH / UNWIND only: with further clauses the unchanged translator already fails in ways that fall
         # under the registered classes — path variable carried through WITH, predicate reading an earlier binding)
-        if need <= feats and not ("pattern-predicate" in need and "named-path-with-own-pattern-predicate" in feats and
+        if need <= feats and not (need == {"pattern-predicate"} and "named-path-with-own-pattern-predicate" in feats and
                                   not (feats & {"with", "unwind", "match-after-earlier-clause"})):
             return ss + ":" + shape
     return ss + ":unrecognised-query-shape"
